@@ -245,7 +245,7 @@ namespace pl
         }
     };
 
-    inline std::shared_ptr<World> makeSpace(int kind, Rng &rng)
+    inline std::shared_ptr<World> makeSpace(int kind, Rng &rng, bool tightTurns = false)
     {
         auto w = std::make_shared<World>();
         w->kind = kind;
@@ -297,7 +297,7 @@ namespace pl
                 }
                 else if (kind == K_DUBINS)
                 {
-                    w->rho = rng.uni(0.3, 1.0);
+                    w->rho = tightTurns ? rng.uni(0.15, 0.35) : rng.uni(0.3, 1.0);  // tight: loops fit between the small discs of a cluttered world
                     auto sp = std::make_shared<Counting<ob::DubinsStateSpace>>(w->rho, false);
                     sp->setBounds(b2);
                     w->tracker = sp->tr;
@@ -305,7 +305,7 @@ namespace pl
                 }
                 else
                 {
-                    w->rho = rng.uni(0.3, 1.0);
+                    w->rho = tightTurns ? rng.uni(0.15, 0.35) : rng.uni(0.3, 1.0);  // tight: loops fit between the small discs of a cluttered world
                     auto sp = std::make_shared<Counting<ob::ReedsSheppStateSpace>>(w->rho);
                     sp->setBounds(b2);
                     w->tracker = sp->tr;
@@ -409,15 +409,15 @@ namespace pl
     inline std::shared_ptr<World> makeWorld(uint64_t seed, int kind, bool hostileInputs, int fixedObst = -1)
     {
         Rng rng(seed);
-        auto w = makeSpace(kind, rng);
+        // direction-dependent spaces: half of the worlds are cluttered with many small discs and have a small turning radius (a
+        // curve and its reverse then differ in validity far more often, which is what exposes direction mix-ups)
+        const bool clutter = (kind == K_DUBINS || kind == K_RS) && fixedObst < 0 && rng.coin(0.5);
+        auto w = makeSpace(kind, rng, clutter);
         w->hash = seed;
         w->si = std::make_shared<ob::SpaceInformation>(w->space);
         World *wp = w.get();
         w->si->setStateValidityChecker(std::make_shared<WChecker>(w->si, wp));
         w->res = rng.logUni(0.004, 0.02);
-        // direction-dependent spaces: half of the worlds are cluttered with many small discs (a curve and its reverse then
-        // differ in validity far more often, which is what exposes direction mix-ups)
-        const bool clutter = (kind == K_DUBINS || kind == K_RS) && fixedObst < 0 && rng.coin(0.5);
         if (clutter) w->res = rng.logUni(0.004, 0.008);
         w->si->setStateValidityCheckingResolution(w->res);
         w->segFactor = 1 + (int)rng.ui(3);
@@ -753,6 +753,8 @@ namespace pl
             // RRT*'s ordered_sampling is only legal together with informed / rejection sampling (the setter logs an error for
             // anything else and the planner then dereferences a null sampler): not a configuration in the quantifier
             if (n == "ordered_sampling") continue;
+            // likewise pruned_measure is only legal together with informed sampling and tree pruning (error logged otherwise)
+            if (n == "pruned_measure") continue;
             auto &gp = p->params()[n];
             if (gp.getRangeSuggestion() != "0,1") continue;
             if (!rng.coin(prob)) continue;
